@@ -283,13 +283,32 @@ spif_mbuff_init_from_fd(spif_mbuff_t self, int fd)
             FREE(self->buff);
         }
     } else {
-        self->len = self->size = file_size;
+        ssize_t cnt;
+
+        /* Only what lies between the current offset and the end can be read. */
+        file_size -= (spif_memidx_t) file_pos;
+        LOWER_BOUND(file_size, 0);
+        self->len = 0;
+        self->size = file_size;
         self->buff = (spif_byteptr_t) MALLOC(self->size);
 
-        if (read(fd, p, file_size) < 1) {
+        for (p = self->buff; self->len < self->size; ) {
+            cnt = read(fd, p, self->size - self->len);
+            if (cnt > 0) {
+                self->len += cnt;
+                p += cnt;
+            } else if ((cnt < 0) && (errno == EINTR)) {
+                continue;
+            } else {
+                break;
+            }
+        }
+        if (self->len < 1) {
             FREE(self->buff);
+            self->size = 0;
             return FALSE;
         }
+        self->size = self->len;
     }
     return TRUE;
 }
